@@ -90,7 +90,14 @@ class LocalLink:
         # Send the data to the first controller with a matching address
         if transport == core.PhysicalTransport.LE:
             destination_controller = self.find_le_controller(destination_address)
-            source_address = sender_controller.random_address
+            # The peer files this connection under the address it was made with,
+            # which is the public address when own_address_type is PUBLIC.
+            connection = sender_controller.le_connections.get(destination_address)
+            source_address = (
+                connection.self_address
+                if connection
+                else sender_controller.random_address
+            )
         elif transport == core.PhysicalTransport.BR_EDR:
             destination_controller = self.find_classic_controller(destination_address)
             source_address = sender_controller.public_address
